@@ -112,35 +112,6 @@ theorem touchVal_pos {u prio L : Int} {now : Int} (hu : 0 < u) (hL : 1 ≤ L) :
   simp only [hd]
   rfl
 
-/-- what a successful `exit a` does. -/
-theorem exit_spec {u : Int} {s s1 : State} {a : Identity} (h : step u s (.exit a) = some s1) :
-    ∃ o, s.ops a = some o ∧ o.alive = true ∧ s1.now = s.now ∧ s1.status = s.status.erase a ∧
-      s1.ops = updOp s.ops a { o with alive := false, sleeping := false } := by
-  simp only [step] at h
-  cases hk : s.ops a with
-  | none => simp [hk] at h
-  | some o =>
-    simp only [hk] at h
-    by_cases ha : o.alive = true
-    · simp only [ha, if_true, Option.some.injEq, touchVal_zero, Status.patch] at h
-      subst h
-      exact ⟨o, rfl, ha, rfl, rfl, rfl⟩
-    · simp [ha] at h
-
-theorem kill_spec {u : Int} {s s1 : State} {a : Identity} (h : step u s (.kill a) = some s1) :
-    ∃ o, s.ops a = some o ∧ o.alive = true ∧ s1.now = s.now ∧ s1.status = s.status ∧
-      s1.ops = updOp s.ops a { o with alive := false, sleeping := false } := by
-  simp only [step] at h
-  cases hk : s.ops a with
-  | none => simp [hk] at h
-  | some o =>
-    simp only [hk] at h
-    by_cases ha : o.alive = true
-    · simp only [ha, if_true, Option.some.injEq] at h
-      subst h
-      exact ⟨o, rfl, ha, rfl, rfl, rfl⟩
-    · simp [ha] at h
-
 /-! ### settling -/
 
 theorem settle {u : Int} {s s' : State} (hg : Good u s) (ls : List Label)
@@ -167,7 +138,7 @@ theorem dead_mono {u : Int} {r : Rec} {t : Int} (d : Nat) (h : r.dead u t = true
 
 theorem good_after_exit {u : Int} {s s1 : State} {a : Identity} (hg : Good u s)
     (h : step u s (.exit a) = some s1) : Good u s1 := by
-  obtain ⟨o, ho, hoa, hnow, hst, hops⟩ := exit_spec h
+  obtain ⟨o, ho, hoa, hnow, hst, hops, _⟩ := exit_spec h
   constructor
   · intro i op hi ha
     rw [hops] at hi
@@ -197,7 +168,7 @@ theorem good_after_kill_expiry {u : Int} {s s1 s2 : State} {a : Identity} {d : N
     (hexp : ∀ r, (a, r) ∈ s.status → r.dead u (s.now + d) = true)
     (hfresh : ∀ i op, s.ops i = some op → op.alive = true → i ≠ a →
       ∃ r, (i, r) ∈ s.status ∧ r.priority = op.prio ∧ r.dead u (s.now + d) = false) : Good u s2 := by
-  obtain ⟨o, ho, hoa, hnow, hst, hops⟩ := kill_spec h1
+  obtain ⟨o, ho, hoa, hnow, hst, hops, _⟩ := kill_spec h1
   simp only [step, Option.some.injEq] at h2
   subst h2
   constructor
